@@ -302,7 +302,14 @@ func (l *c01Life) answerOldest(outcome error) bool {
 	if len(ids) == 0 {
 		return false
 	}
-	id := ids[0]
+	// oldest = smallest request number (the ids sort as text: 1, 10, 11, 2, ...)
+	id, best := ids[0], 1<<62
+	for _, x := range ids {
+		var n int
+		if k, _ := fmt.Sscanf(x, "exp:%d", &n); k == 1 && n < best {
+			id, best = x, n
+		}
+	}
 	if !l.cur.inc.Fenced() {
 		// the backend has answered a live incarnation: from now on the data is the backend's
 		if outcome == nil || consumererror.IsPermanent(outcome) || !l.cfg.Retry {
@@ -484,6 +491,21 @@ func c01Config(tp *simkit.Tape) c01Cfg {
 	c.StartIndex = []uint64{0, 0, 254, 65534, 4294967294, 1<<53 - 2, 1<<62 - 1}[tp.Draw(7)]
 	n := tp.Range(3, 10)
 	ops := []string{"E", "Ao", "Ap", "At", "T", "Ro", "Rt"}
+	if tp.Chance(1, 10) {
+		// wide: many consumers, all busy - the list of dispatched items gets long and completions come out of order
+		c.Mode = "plan"
+		c.Consumers = tp.Range(9, 12)
+		c.Cap = 16
+		c.Batcher, c.BMin, c.BMax = false, 0, 0
+		for i := 0; i < c.Consumers+1; i++ {
+			c.Script = append(c.Script, "E")
+		}
+		n = tp.Range(2, 7)
+		for i := 0; i < n; i++ {
+			c.Script = append(c.Script, ops[tp.Weighted(1, 6, 1, 1, 1, 1, 1)])
+		}
+		return c
+	}
 	for i := 0; i < n; i++ {
 		op := ops[tp.Weighted(6, 3, 1, 2, 1, 1, 1)]
 		c.Script = append(c.Script, op)
